@@ -35,6 +35,19 @@ CHECKS = {
              "non-computable / non JSON-serialisable errors list, or a mutated input is a violation.",
         design_ref="7 C03", technique="TLA+ outcome-class model + trace validation of recorded calls on exotic data",
         note=DESER_NOTE + " 'Any Python object' is sampled by ~20 kinds."),
+    "C11": dict(
+        category="model_checking",
+        text="spec/Names.tla: external names as SYMBOLIC terms (base string + sequence of aliaser applications). Layer R is "
+             "the rule dyn(classAliaser(alias or name)) with the override=False exemption and the settings.aliaser default; "
+             "Layer M says what each of 19 views (deserialize keys, flattened key collection, serialize keys, properties / "
+             "required / dependentRequired of both schemas, locs of missing / type / validator / yielded-alias / "
+             "after-discard / dependentRequired errors, GraphQL output / input / argument names and result keys) reads "
+             "and applies. TLC checks OneNameAll over every (alias, override, class aliasers, per-call aliaser, "
+             "settings.aliaser) x {plain, nested, flattened}; four negative checks (the two pinned defects and the two "
+             "seeded shapes as deviations) must violate it. Every configuration is replayed on generated dataclasses with "
+             "pairwise non-commuting real aliasers and every view compared with the evaluated term.",
+        design_ref="7 C11", technique="TLA+ symbolic-term model, TLC exhaustive, replay of every configuration in 19 views",
+        note="Names invalid in GraphQL ('$ref') skip the GraphQL views only."),
     "C13": dict(
         category="model_checking",
         text="spec/DataModel.tla carries, next to the reference rule 'first accepting alternative', an "
